@@ -1,15 +1,23 @@
+pub mod c02;
 pub mod c10;
+pub mod c11;
+pub mod c12;
 pub mod c21;
 pub mod c28;
 pub mod c29;
+pub mod c30;
 pub mod c35;
 
 pub fn dispatch(id: &str, args: &[String]) -> ! {
     match id {
+        "C02" => c02::run(args),
         "C10" => c10::run(args),
+        "C11" => c11::run(args),
+        "C12" => c12::run(args),
         "C21" => c21::run(args),
         "C28" => c28::run(args),
         "C29" => c29::run(args),
+        "C30" => c30::run(args),
         "C35" => c35::run(args),
         _ => {
             eprintln!("MACHINERY-ERROR unknown check {id}");
